@@ -67,6 +67,16 @@ fn cmp_op(rng: &mut Rng) -> &'static str {
 }
 
 fn gen_pred(rng: &mut Rng, ints: &[i64], depth: u32) -> (String, String) {
+    if rng.chance(1, 8) {
+        // two range comparisons on the same (indexed) column, including pairs bounding the same
+        // side (a > 5 AND a > 10) and a bound that is not a literal
+        let col = *rng.pick(&["a", "a", "u", "b"]);
+        let ops = ["<", "<=", ">", ">="];
+        let (o1, o2) = (*rng.pick(&ops), *rng.pick(&ops));
+        let rhs2 = if rng.chance(1, 6) { "b".to_string() } else { lit_int(rng, ints) };
+        let (l, r) = (format!("{} {} {}", col, o1, lit_int(rng, ints)), format!("{} {} {}", col, o2, rhs2));
+        return if rng.chance(1, 2) { (format!("{} AND {}", l, r), "range-pair-same-column".into()) } else { (format!("{} AND {}", r, l), "range-pair-same-column".into()) };
+    }
     match rng.below(if depth == 0 { 7 } else { 10 }) {
         0 | 1 => {
             let col = *rng.pick(&["a", "a", "b", "u"]);
